@@ -25,6 +25,7 @@ type Opts struct {
 	Merge      string // "none" | "eager2" | "eager3" | "default"
 	Faults     []Fault
 	NoMmap     bool
+	IntroGates bool // gate the introducer at the start of a persist swap / merge introduction
 	NapUnderNumFiles int // PersisterNapUnderNumFiles (0 = default 1000): small values make the persister wait for the merger
 }
 
@@ -219,6 +220,14 @@ func (s *Sys) hook(ev string, args ...interface{}) {
 		}
 		c.Log("Prepared", "c", proc, "uid", uid, "seg", id, "rootEpoch", root.VerifEpoch(), "rootSegs", ids)
 		c.GateAt("batch.send")
+	case "intro.persist.begin":
+		if s.O.IntroGates {
+			c.GateAt("intro.persist")
+		}
+	case "intro.merge.begin":
+		if s.O.IntroGates {
+			c.GateAt("intro.merge")
+		}
 	case "intro.batch":
 		s.mu.Lock()
 		s.pendKind, s.pendSeg = "batch", args[0].(uint64)
